@@ -257,15 +257,19 @@ pub fn c10(a: &Args) {
         if name == "first-chunk" {
             let bad: [(&str, &[u8]); 6] = [("overlong", b"\xC0\x80"), ("truncated", b"\xE2\x82"), ("surrogate", b"\xED\xA0\x80"), ("ff", b"\xFF"), ("cont-only", b"\x80\xBF"), ("above", b"\xF4\x90\x80\x80")];
             for (bn, seq) in bad {
-                let mut cs = chunks.clone();
-                let mut rep = b"TITLE_MARKER_XY".to_vec();
-                rep[3..3 + seq.len()].copy_from_slice(seq);
-                let mut hits = 0;
-                for (k, p) in cs.iter_mut() {
-                    if k.starts_with("LAYER_") { hits += replace_all(p, b"TITLE_MARKER_XY", &rep); }
+                // the ill-formed bytes at the start, inside and at the very END of the string (a validity scan over the wrong range
+                // misses one of them)
+                for pos in [0usize, 3, 15 - seq.len(), 14 - seq.len().min(14)] {
+                    let mut cs = chunks.clone();
+                    let mut rep = b"TITLE_MARKER_XY".to_vec();
+                    rep[pos..pos + seq.len()].copy_from_slice(seq);
+                    let mut hits = 0;
+                    for (k, p) in cs.iter_mut() {
+                        if k.starts_with("LAYER_") { hits += replace_all(p, b"TITLE_MARKER_XY", &rep); }
+                    }
+                    let file = write_chunks(&cs);
+                    load_event(&mut u, &mut out, "icy", &format!("title:{bn}:pos={pos}:hits={hits}"), &file);
                 }
-                let file = write_chunks(&cs);
-                load_event(&mut u, &mut out, "icy", &format!("title:{bn}:hits={hits}"), &file);
             }
             // font name: embed a font, patch its name
             let mut doc2 = icy_doc(4, 2, marker, "t");
@@ -275,14 +279,16 @@ pub fn c10(a: &Args) {
             if let Ok(Ok(b2)) = guard(|| doc2.to_bytes("icy", &opts)) {
                 let chunks2 = read_chunks(&b2);
                 for (bn, seq) in bad {
-                    let mut cs = chunks2.clone();
-                    let mut rep = b"FONTNAME_MARKER".to_vec();
-                    rep[3..3 + seq.len()].copy_from_slice(seq);
-                    let mut hits = 0;
-                    for (k, p) in cs.iter_mut() {
-                        if k.starts_with("FONT_") { hits += replace_all(p, b"FONTNAME_MARKER", &rep); }
+                    for pos in [0usize, 3, 15 - seq.len()] {
+                        let mut cs = chunks2.clone();
+                        let mut rep = b"FONTNAME_MARKER".to_vec();
+                        rep[pos..pos + seq.len()].copy_from_slice(seq);
+                        let mut hits = 0;
+                        for (k, p) in cs.iter_mut() {
+                            if k.starts_with("FONT_") { hits += replace_all(p, b"FONTNAME_MARKER", &rep); }
+                        }
+                        load_event(&mut u, &mut out, "icy", &format!("fontname:{bn}:pos={pos}:hits={hits}"), &write_chunks(&cs));
                     }
-                    load_event(&mut u, &mut out, "icy", &format!("fontname:{bn}:hits={hits}"), &write_chunks(&cs));
                 }
             }
         }
